@@ -43,7 +43,7 @@ func coqBool(b bool) string {
 	return "false"
 }
 
-func SegOf(us ...Unit) Seg { return Seg{Units: us} }
+func SegOf(us ...Unit) Seg  { return Seg{Units: us} }
 func HdrSeg(us ...Unit) Seg { return Seg{Units: us, Header: true} }
 
 func (s Seg) Bytes() []byte {
@@ -103,6 +103,44 @@ func (st Stream) Cut(limit int) (k int, extra string) {
 		}
 	}
 	return k, ""
+}
+
+// IsHeader reports whether the segment carries the start tag of a stream header.
+func (s Seg) IsHeader() bool {
+	for _, u := range s.Units {
+		for _, t := range u.Toks {
+			if strings.HasPrefix(t, "Open (KHdr") {
+				return true
+			}
+		}
+	}
+	return false
+}
+
+// Resegment splits the segments of a stream at tag boundaries chosen by next (a
+// draw in [0,n)): the same bytes reach the library in more, smaller Reads, so
+// that Reads fall inside elements and every operation index moves. A segment
+// never ends with character data (the tokenizer would need the next Read before
+// it can deliver that token), and segments are never merged (what follows a
+// stream restart must stay in a Read of its own).
+func Resegment(st Stream, next func(n int) int) Stream {
+	var out Stream
+	for _, s := range st {
+		// Header stays on the first piece only: Expect tests ctx.Done() before the token it
+		// asks for, and decl.Skip fetches the token after an XML declaration within the same
+		// call, so only the first Read of a header exchange is preceded by a test
+		cur := Seg{Header: s.Header}
+		for i, u := range s.Units {
+			cur.Units = append(cur.Units, u)
+			last := i == len(s.Units)-1
+			if !last && !u.Text && next(3) == 0 {
+				out = append(out, cur)
+				cur = Seg{}
+			}
+		}
+		out = append(out, cur)
+	}
+	return out
 }
 
 // HeaderReads returns, for each segment, whether it is a stream header.
@@ -203,15 +241,16 @@ func (e Ev) Coq() string {
 
 // Scenario is one handshake with everything scripted but the faults.
 type Scenario struct {
-	Name  string     `json:"name"`
-	Entry string     `json:"entry"` // finding-key component: role and handshake
-	Neg   string     `json:"neg"`   // std, ws, comp
-	Recv  bool       `json:"recv,omitempty"`
-	Bits  uint8      `json:"bits,omitempty"` // state passed to NewSession / ReceiveSession
-	Feats []FeatSpec `json:"feats,omitempty"`
-	RWOnly bool      `json:"rwonly,omitempty"` // transport without deadlines
-	TLS    bool      `json:"tls,omitempty"`    // live peer, real crypto/tls
-	HSBad  bool      `json:"hsbad,omitempty"`  // the certificate is not trusted: the handshake fails
+	Name    string     `json:"name"`
+	Entry   string     `json:"entry"` // finding-key component: role and handshake
+	Neg     string     `json:"neg"`   // std, ws, comp
+	Recv    bool       `json:"recv,omitempty"`
+	Bits    uint8      `json:"bits,omitempty"` // state passed to NewSession / ReceiveSession
+	Feats   []FeatSpec `json:"feats,omitempty"`
+	RWOnly  bool       `json:"rwonly,omitempty"`  // transport without deadlines
+	NoReseg bool       `json:"noreseg,omitempty"` // the scenario depends on what shares a Read: never re-segmented
+	TLS     bool       `json:"tls,omitempty"`     // live peer, real crypto/tls
+	HSBad   bool       `json:"hsbad,omitempty"`   // the certificate is not trusted: the handshake fails
 
 	Clear Stream `json:"-"`
 	TLSs  Stream `json:"-"` // the peer's stream on the TLS layer
